@@ -26,6 +26,7 @@ const (
 	dtoPkg    = shopPkg + ".dto"
 	reportPkg = shopPkg + ".report"
 	webPkg    = shopPkg + ".web"
+	shipPkg   = shopPkg + ".ship"
 )
 
 var smellKinds = []string{"dataClass", "lazyElement", "longMethod", "longParameterList", "complexCondition", "repeatedSwitches", "refusedBequest", "largeClass"}
@@ -37,8 +38,8 @@ func dupNameFiles(t *rapid.T, level int) ([]jgen.File, []string) {
 	var files []jgen.File
 	var roots []string
 	w := &jw{}
-	w.f("package %s;\n\npublic class Order {\n    private int name;\n    private String code;\n    private long stamp;\n\n", dtoPkg)
-	w.f("    public int getName() {\n        return name;\n    }\n\n    public String getCode() {\n        return code;\n    }\n\n    public void setCode(String code) {\n        this.code = code;\n    }\n\n")
+	w.f("package %s;\n\npublic class Order {\n    private Long name;\n    private String code;\n    private java.util.Date stamp;\n\n", dtoPkg)
+	w.f("    public Long getName() {\n        return name;\n    }\n\n    public String getCode() {\n        return code;\n    }\n\n    public void setCode(String code) {\n        this.code = code;\n    }\n\n")
 	if rapid.Bool().Draw(t, "dtoOrderBehaviour") {
 		w.f("    public String describe(int width) {\n        return code;\n    }\n\n    public String describe() {\n        return this.describe(2);\n    }\n\n")
 	}
@@ -96,10 +97,12 @@ func diFiles(t *rapid.T, level int) ([]jgen.File, []string) {
 	var roots []string
 	files = append(files, jgen.File{Path: "com/acme/shop/Shipper.java", Text: "package " + shopPkg + ";\n\npublic interface Shipper {\n    Order ship(Order order);\n\n    void recall(int id);\n}\n"})
 	impls := []string{"FastShipper", "SlowShipper", "DroneShipper"}[:level+1]
-	stereo := []string{"@Component", "@Service", "@Repository"}
+	stereo := []string{"Component", "Repository", "Service"}
 	for i, name := range impls {
+		// the identifier pass records an implemented interface through its single-type import
+		st := stereo[rapid.IntRange(0, 2).Draw(t, "stereotype")]
 		w := &jw{}
-		w.f("package %s;\n\nimport org.springframework.stereotype.*;\n\n%s\npublic class %s implements Shipper", shopPkg, stereo[rapid.IntRange(0, 2).Draw(t, "stereotype")], name)
+		w.f("package %s;\n\nimport org.springframework.stereotype.%s;\nimport %s.Shipper;\nimport %s.Order;\nimport %s.OrderRepo;\n\n@%s\npublic class %s implements Shipper", shipPkg, st, shopPkg, shopPkg, shopPkg, st, name)
 		if i == 2 {
 			w.f(", Runnable")
 		}
@@ -118,8 +121,8 @@ func diFiles(t *rapid.T, level int) ([]jgen.File, []string) {
 			w.f("    public void run() {\n        orderRepo.count();\n    }\n\n")
 		}
 		w.f("}\n")
-		files = append(files, jgen.File{Path: "com/acme/shop/" + name + ".java", Text: w.b.String()})
-		roots = append(roots, shopPkg+"."+name+".ship", shopPkg+"."+name+".recall")
+		files = append(files, jgen.File{Path: "com/acme/shop/ship/" + name + ".java", Text: w.b.String()})
+		roots = append(roots, shipPkg+"."+name+".ship", shipPkg+"."+name+".recall")
 	}
 	w := &jw{}
 	w.f("package %s;\n\nimport org.springframework.web.bind.annotation.*;\nimport %s.*;\n\n@RestController\n", webPkg, shopPkg)
